@@ -9,6 +9,7 @@ package h
 //             tap at every quiescent point.
 
 import (
+	"sync/atomic"
 	"context"
 	"fmt"
 	"math/rand"
@@ -40,6 +41,8 @@ func init() {
 		return out
 	}
 }
+
+var fcCoalesced int64 // credit updates larger than one chunk delivered to a sender (evidence)
 
 type fcEvent struct {
 	k string
@@ -89,6 +92,7 @@ func famFCCore(w *World, c *Case, rng *rand.Rand) {
 		orders[sig] = true
 	}
 	w.Stat("fccore_runs", runs)
+	w.Stat("fccore_coalesced_credit_updates", int(atomic.SwapInt64(&fcCoalesced, 0)))
 	w.Stat("fccore_distinct_orders_in_case", len(orders))
 	keys := make([]string, 0, len(orders))
 	for k := range orders {
@@ -199,6 +203,7 @@ func (w *World) fcCoreRun(rng *rand.Rand, idx int) string {
 		dataQ <- chunk{append([]byte(nil), data...)}
 		return nil
 	})
+	coalesce := rng.Intn(3) == 0
 	rcv = grpctunnel.VerifNewReceiver(func(n uint32) {
 		r.mu.Lock()
 		// the item left the queue and its credit enters the wire in one step
@@ -245,6 +250,22 @@ func (w *World) fcCoreRun(rng *rand.Rand, idx int) string {
 			case n := <-credQ:
 				if parkMax > 0 {
 					time.Sleep(time.Duration(pr.Intn(parkMax+1)) * time.Nanosecond)
+				}
+				if coalesce {
+					// a peer may return credit in larger portions than it took data in (the protocol
+					// puts no bound on one update): whatever else is ready is added to this update
+				drain:
+					for {
+						select {
+						case m := <-credQ:
+							n += m
+						default:
+							break drain
+						}
+					}
+					if n > 16384 {
+						atomic.AddInt64(&fcCoalesced, 1)
+					}
 				}
 				r.mu.Lock()
 				r.credFly -= int64(n)
